@@ -11,10 +11,13 @@ export VERIF_TIER=$TIER
 id=$(echo "$ID" | tr 'A-Z' 'a-z')
 GEN=$V/.gen/$id
 mkdir -p "$GEN" $V/.bin $V/evidence $V/replays
-[ -x $V/.bin/rewrite ] || (cd $V && go build -o .bin/rewrite ./engine/rewrite) || { echo "INFRA: cannot build rewriter"; exit 2; }
+(cd $V && go build -o .bin/rewrite ./engine/rewrite) || { echo "INFRA: cannot build rewriter"; exit 2; }
+BIN=$V/.bin/$id
+if [ -n "${VERIF_MUTATE:-}" ]; then GEN=$V/.gen/$id-mut-$$; BIN=$V/.bin/$id-mut-$$; mkdir -p "$GEN"; trap 'rm -rf "$GEN" "$BIN"' EXIT; fi
 PKGS=$(cat $V/checks/$id/rewrite.pkgs 2>/dev/null | tr '\n' ',' )
 $V/.bin/rewrite -repo /repo -out "$GEN" -shim $V/shim -pkgs "$PKGS" || { echo "INFRA: rewrite failed"; exit 2; }
-(cd $V && go build -tags verif -overlay "$GEN/overlay.json" -o .bin/$id ./checks/$id) || { echo "INFRA: build of check $ID failed"; exit 2; }
+(cd $V && go build -tags verif -overlay "$GEN/overlay.json" -o $BIN ./checks/$id) || { echo "INFRA: build of check $ID failed"; exit 2; }
 ulimit -v 33554432 2>/dev/null
-if [ "$TIER" = "--replay" ]; then exec $V/.bin/$id -replay "$@"; fi
-exec $V/.bin/$id -tier "$TIER" "$@"
+if [ "$TIER" = "--replay" ]; then $BIN -replay "$@"; exit $?; fi
+$BIN -tier "$TIER" "$@"
+exit $?
